@@ -184,8 +184,8 @@ func (p *Parser) validateProtectedHeaders(headers jws.Headers, allowedAlgorithms
 }
 
 func (p *Parser) validateRecoverRequest(req *model.RecoverRequest) error {
-	if req.DidSuffix == "" {
-		return errors.New("missing did suffix")
+	if err := p.validateDidSuffix(req.DidSuffix); err != nil {
+		return err
 	}
 
 	if req.SignedData == "" {
@@ -243,6 +243,21 @@ func (p *Parser) validateCommitment(jwk *jws.JWK, nextCommitment string) error {
 
 	if currentCommitment == nextCommitment {
 		return errors.New("re-using public keys for commitment is not allowed")
+	}
+
+	return nil
+}
+
+// validateDidSuffix checks the DID suffix of an update, recover or deactivate request: it has to be there and
+// - like every other hash of a request - within the maximum hash length (the batch reader refuses a whole batch
+// over a longer one).
+func (p *Parser) validateDidSuffix(suffix string) error {
+	if suffix == "" {
+		return errors.New("missing did suffix")
+	}
+
+	if len(suffix) > int(p.MaxOperationHashLength) {
+		return fmt.Errorf("did suffix length[%d] exceeds maximum hash length[%d]", len(suffix), p.MaxOperationHashLength)
 	}
 
 	return nil
